@@ -30,6 +30,16 @@ def _tmpdir():
 _TMP_PID = [None]
 
 
+def cleanup():
+    """Removes this process' scratch directory (pool workers are left with
+    os._exit, so atexit does not run there: the driver calls this)."""
+    global _TMP
+    if _TMP is not None and _TMP_PID[0] == os.getpid():
+        shutil.rmtree(_TMP, True)
+    _TMP = None
+    _SBML_FILES.clear()
+
+
 # ---------------------------------------------------------------------------
 # SBML generation
 # ---------------------------------------------------------------------------
